@@ -3,12 +3,14 @@
   `Atomman/C03.lean` of `atomman/core/nlist.pyx` + `NeighborList.py` (exact over ℚ).
 
   Helper lemmas: Proofs/C03_Lemmas.lean (insertion, dmag2, storage), Proofs/C03_Geometry.lean (bins, sweep,
-  superbox, ghosts), Proofs/C03_Text.lean (dump/load), Proofs/C03_Bins.lean (bin table with capacity).
+  superbox, ghosts), Proofs/C03_Text.lean (dump/load), Proofs/C03_Bins.lean (bin table with capacity), Proofs/C03_Scale.lean (scaled /
+  translated systems).
 -/
 import Proofs.C03_Lemmas
 import Proofs.C03_Geometry
 import Proofs.C03_Text
 import Proofs.C03_Bins
+import Proofs.C03_Scale
 
 set_option linter.unusedSimpArgs false
 set_option linter.unusedVariables false
@@ -393,6 +395,70 @@ theorem answers_complete (S : Sys) (pre : List Op) (c : ℚ) (hc : 0 < c)
 /-- a move between two calls changes the second answer: cubic cell of side 4, atom 1 moved from x = 7/2 (image
     distance 1 from atom 0) to x = 2 (distance 3/2, not below the cutoff 3/2). -/
 example : answers exSys [.query (3 / 2), .setPos 1 ⟨2, 1/2, 1/2⟩, .query (3 / 2)] = [[[1], [0]], [[], []]] := by
+  decide +kernel
+
+/-! ### the unit of length and the position of the cell do not matter; a cutoff spanning the cell is no shortcut -/
+
+/-- **spec_scale_invariant**: multiplying every length (cell vectors, origin, positions, cutoff) by `s ≠ 0` leaves the
+    specification unchanged: the squared distances and the squared cutoff both pick up `s²`. -/
+theorem spec_scale_invariant (s : ℚ) (hs : s ≠ 0) (S : Sys) (cutoff : ℚ) (i : Nat) :
+    nlistSpec (scaleSys s S) (s * cutoff) i = nlistSpec S cutoff i := by
+  unfold nlistSpec
+  rw [scaleSys_natoms]
+  apply List.filter_congr
+  intro j _
+  rw [dist2_scale s hs]
+  have hk : (0 : ℚ) < s * s := mul_self_pos.2 hs
+  have e : s * cutoff * (s * cutoff) = s * s * (cutoff * cutoff) := by ring
+  have : (s * s * dist2 S i j < s * cutoff * (s * cutoff)) ↔ dist2 S i j < cutoff * cutoff := by
+    rw [e]
+    exact ⟨fun h => lt_of_mul_lt_mul_left h hk.le, fun h => mul_lt_mul_of_pos_left h hk⟩
+  simp only [this]
+
+/-- **nlist_scale_invariant**: for atoms inside the cell the lists computed by the algorithm (superbox, bins of the
+    scaled cutoff, ghosts, sweep) are the same for the system measured in another unit of length (`s > 0`). -/
+theorem nlist_scale_invariant (s : ℚ) (hs : 0 < s) (S : Sys) (cutoff : ℚ) (hc : 0 < cutoff)
+    (hin : ∀ i, i < S.natoms → InsideCell S (S.posOf i)) (i : Nat) (hi : i < S.natoms) :
+    rowOf (nlistL (scaleSys s S) (s * cutoff)) i = rowOf (nlistL S cutoff) i := by
+  have hin' : ∀ k, k < (scaleSys s S).natoms → InsideCell (scaleSys s S) ((scaleSys s S).posOf k) := by
+    intro k hk
+    rw [scaleSys_posOf]
+    exact insideCell_scale s S _ (hin k (by rwa [scaleSys_natoms] at hk))
+  rw [alg_complete (scaleSys s S) (s * cutoff) (mul_pos hs hc) hin' i (by rw [scaleSys_natoms]; exact hi),
+    alg_complete S cutoff hc hin i hi, spec_scale_invariant s hs.ne']
+
+/-- **spec_translate_invariant**: moving the whole system (origin and atoms) by `t` leaves the specification
+    unchanged ("any origin"). -/
+theorem spec_translate_invariant (t : V3 ℚ) (S : Sys) (cutoff : ℚ) (i : Nat) (hi : i < S.natoms) :
+    nlistSpec (translateSys t S) cutoff i = nlistSpec S cutoff i := by
+  unfold nlistSpec
+  rw [translateSys_natoms]
+  apply List.filter_congr
+  intro j hj
+  rw [dist2_translate t S i j hi (mem_range.1 hj)]
+
+/-- **nlist_translate_invariant**: for atoms inside the cell the computed lists do not depend on where the cell sits
+    (the superbox and the bin edges move with it; the lists do not change). -/
+theorem nlist_translate_invariant (t : V3 ℚ) (S : Sys) (cutoff : ℚ) (hc : 0 < cutoff)
+    (hin : ∀ i, i < S.natoms → InsideCell S (S.posOf i)) (i : Nat) (hi : i < S.natoms) :
+    rowOf (nlistL (translateSys t S) cutoff) i = rowOf (nlistL S cutoff) i := by
+  have hin' : ∀ k, k < (translateSys t S).natoms → InsideCell (translateSys t S) ((translateSys t S).posOf k) := by
+    intro k hk
+    have hk' : k < S.natoms := by rwa [translateSys_natoms] at hk
+    rw [translateSys_posOf t S k hk']
+    exact insideCell_translate t S _ (hin k hk')
+  rw [alg_complete (translateSys t S) cutoff hc hin' i (by rw [translateSys_natoms]; exact hi),
+    alg_complete S cutoff hc hin i hi, spec_translate_invariant t S cutoff i hi]
+
+/-- a cutoff longer than the Frobenius norm `√(|a|² + |b|² + |c|²)` of the cell matrix does NOT make every pair a
+    neighbor: sheared cell `lx = ly = lz = 4, xy = 3`, no periodic direction, atoms at the two ends of the longest
+    body diagonal (`|a + b + c|² = 81 > 64 = cutoff² > 57 = |a|² + |b|² + |c|²`) and one at the centre: the two ends
+    are not neighbors, and the algorithm agrees. -/
+def shearSys : Sys :=
+  ⟨⟨⟨4, 0, 0⟩, ⟨3, 4, 0⟩, ⟨0, 0, 4⟩⟩, ⟨0, 0, 0⟩, false, false, false, [⟨0, 0, 0⟩, ⟨7/2, 2, 2⟩, ⟨7, 4, 4⟩]⟩
+
+example : (4 * 4 + (3 * 3 + 4 * 4) + 4 * 4 : ℚ) < 8 * 8 ∧
+    nlistSpec shearSys 8 0 = [1] ∧ nlistSpec shearSys 8 2 = [1] ∧ nlistL shearSys 8 = [[1], [0, 2], [1]] := by
   decide +kernel
 
 /-! ### the source computes with the types, scalars and tests of the model (translator tie) -/
